@@ -230,7 +230,8 @@ fn tokenize_tag(input: &str, bytepos: &mut usize) -> Result<TokenType, String> {
     let startpos = *bytepos;
 
     *bytepos += 1;
-    let mut c = input_bytes[*bytepos];
+    // if the opening quote is the last character of the input, then there is no tag at all
+    let mut c = 0;
     while *bytepos < datalen {
         c = input_bytes[*bytepos];
         if c == b'"' {
